@@ -2,8 +2,10 @@
    (proofs: Framework/State.v).  In the model a lint call is a function, so determinism is immediate; the content
    is the frame condition, which is what the regenerated static facts and the differential harness establish
    about the code. *)
-From ZL Require Import Framework.State.
-From Coq Require Import List.
+From ZL Require Import Framework.State Kernels.KuEku.
+From Coq Require Import List ZArith Sorting.Permutation.
+Import ListNotations.
+Open Scope Z_scope.
 
 Theorem c05_history_independent :
   forall (call obj G res : Type) (exec : call -> obj -> G -> res * obj * G),
@@ -19,5 +21,28 @@ Theorem c05_repeat_same :
     fst (fst (exec c o (run_history call obj G res exec (repeat (c, o) n) g0))) = fst (fst (exec c o g0)).
 Proof. exact repeat_same. Qed.
 
+(* e_key_usage_and_extended_key_usage_inconsistent (the lint whose status and details were random before the repairs
+   1500fbd / 5dcbabd), modelled in full in Kernels/KuEku.v as a function of (table, extended key usages, key usage).
+   Its set of authorised combinations - hence its verdict - does not depend on the order in which Go's map iteration
+   delivers the combinations of a table entry ... *)
+Theorem c05_ku_eku_table_order : forall t t' ekus,
+  (forall e, match lookup t e, lookup t' e with Some a, Some b => seteq a b | None, None => True | _, _ => False end) ->
+  forall mp mp', seteq mp mp' -> oseteq (multi t ekus mp) (multi t' ekus mp').
+Proof. exact multi_table_order. Qed.
+
+(* ... nor on the order in which the certificate lists its extended key usages *)
+Theorem c05_ku_eku_order : forall t ekus ekus' ku, Permutation ekus ekus' -> ku_eku_lint t ekus ku = ku_eku_lint t ekus' ku.
+Proof. exact ku_eku_lint_perm. Qed.
+
+(* what two extended key usages authorise together: each one's combinations and every join of one from each *)
+Theorem c05_ku_eku_two : forall t a b ka kb x,
+  lookup t a = Some ka -> lookup t b = Some kb ->
+  exists mp, multi t [a; b] [] = Some mp /\
+    (In x mp <-> In x ka \/ In x kb \/ exists m k, In m ka /\ In k kb /\ x = Z.lor m k).
+Proof. exact multi_two. Qed.
+
 Print Assumptions c05_history_independent.
 Print Assumptions c05_repeat_same.
+Print Assumptions c05_ku_eku_table_order.
+Print Assumptions c05_ku_eku_order.
+Print Assumptions c05_ku_eku_two.
